@@ -17,6 +17,8 @@ Fails(e) ==
       ELSE (IF e.op = "add" /\ r # FAdd(f, a, b) THEN {"add"} ELSE {})
       \cup (IF e.op = "sub" /\ r # FSub(f, a, b) THEN {"sub"} ELSE {})
       \cup (IF e.op = "mul" /\ r # FMul(f, a, b) THEN {"mul"} ELSE {})
+      \cup (IF e.op = "div" /\ ~IsZero(f, b) /\ r # FDiv(f, a, b) THEN {"div"} ELSE {})
+      \cup (IF e.op = "sqrt" /\ SignBit(f, a) = 0 /\ r # FSqrt(f, a) THEN {"sqrt"} ELSE {})
       \cup (IF e.op = "lt" /\ (r = <<1>>) # FLt(f, a, b) THEN {"lt"} ELSE {})
       \cup (IF e.op = "next" /\ IsFinite(f, a) /\ r # NextUp(f, a) THEN {"next"} ELSE {})
       \cup (IF e.op = "val" /\ ~IsRN(f, Val(f, a), a) /\ ~IsZero(f, a) THEN {"val_rn"} ELSE {})
